@@ -108,8 +108,16 @@ def gen_call(rng):
     elif api == "Umis":
         cls = (VALID_ROT if valid else INVALID_ROT)[int(rng.integers(3 if valid else 4))]
         U2 = oracle.quat_to_mat(rng.normal(size=4))
-        which = int(rng.integers(2))
-        a, b = (_rotation_variant(rng, U, cls), U2) if which == 0 else (U2, _rotation_variant(rng, U, cls))
+        which = int(rng.integers(2 if valid else 3))
+        if which == 2:
+            # both operands invalid in a way that cancels in U1' U2: each one has to be rejected on its own
+            a = _rotation_variant(rng, U, cls)
+            b = np.linalg.inv(a).T @ U2
+            if rng.random() < 0.5:
+                a, b = b, a
+            cls = cls + ", both operands (product is a rotation)"
+        else:
+            a, b = (_rotation_variant(rng, U, cls), U2) if which == 0 else (U2, _rotation_variant(rng, U, cls))
         step.update(cls=cls, U=a.tolist(), U2=b.tolist(), cs=int(rng.integers(1, 8)), module="symmetry")
     elif api in ("ubi_to_u", "ubi_to_u_and_eps"):
         k = oracle.TWO_PI if module == "tools" else 1.0
